@@ -168,6 +168,20 @@ fn core_part(tier: Tier) -> Part<'static, LockStep> {
     }
 }
 
+static SYS_CORE_MERGED: LockStep = LockStep { property: "C06", probes: false, seed: None, via_feed: false, merged: true };
+
+/// the core alphabet again, less deep, with twin terminals that get the same history with
+/// fewer call boundaries (two ops per call, even and odd phase) - see DESIGN 3.2
+fn core_merged_part(tier: Tier) -> Part<'static, LockStep> {
+    let mut p = core_part(tier);
+    p.name = "scroll-core-with-merged-calls";
+    p.sys = &SYS_CORE_MERGED;
+    p.cfgs.retain(|c| c.limit.is_none());
+    p.depth = tier.pick(6, 8);
+    p.seconds = tier.pick(15.0, 900.0);
+    p
+}
+
 static SYS_SWEEP: LockStep = LockStep { property: "C06", probes: false, seed: Some(&super::sweep::fill), via_feed: false, merged: false };
 
 fn alpha_sweep(cfg: &Cfg) -> Vec<Op> {
@@ -405,6 +419,7 @@ pub fn run(ctx: &Ctx) -> Report {
     run_part(ctx, &mut rep, &p);
     run_part(ctx, &mut rep, &medium_part(ctx.tier));
     run_part(ctx, &mut rep, &core_part(ctx.tier));
+    run_part(ctx, &mut rep, &core_merged_part(ctx.tier));
     run_part(ctx, &mut rep, &feed_part(ctx.tier));
     run_part(ctx, &mut rep, &limited_part("scroll-core-at-the-limit-10a", &SYS_L10A, 10, ctx.tier));
     run_part(ctx, &mut rep, &limited_part("scroll-core-at-the-limit-10b", &SYS_L10B, 10, ctx.tier));
@@ -442,6 +457,9 @@ pub fn replay(ctx: &Ctx, v: &Value) -> bool {
     }
     if v["part"] == "scroll-core-deep" {
         return replay_part(ctx, &core_part(tier), v);
+    }
+    if v["part"] == "scroll-core-with-merged-calls" {
+        return replay_part(ctx, &core_merged_part(tier), v);
     }
     if v["part"] == "scroll-lockstep-medium-screen" {
         return replay_part(ctx, &medium_part(tier), v);
